@@ -788,6 +788,28 @@ def r_tol_sib(ctx: RuleCtx, col: Collector):
             col.bad(where_of(f), f.rel, line_of(tests[0]), f"{f.short}: residual relative to the right-hand side",
                     f"the convergence measure {sorted(measures)} is not the residual norm divided by the norm of the "
                     f"right-hand side: with an initial guess the solver stops while |Ax-b|/|b| is still large")
+        # ... per right-hand side: the denominator is the column-wise norm itself, not a reduction of it
+        bad_den = None
+        for t in tests:
+            for x in ast.walk(t.left):
+                if isinstance(x, ast.Name):
+                    for d in du.defs.get(x.id, []):
+                        if isinstance(d, ast.BinOp) and isinstance(d.op, ast.Div):
+                            den = expand_names(f.node, d.right)
+                            num_axis = "axis=" in norm(expand_names(f.node, d.left))
+                            for y in ast.walk(den):
+                                if isinstance(y, ast.Call):
+                                    fn = y.func.attr if isinstance(y.func, ast.Attribute) else getattr(y.func, "id", "")
+                                    if fn in ("max", "min", "sum", "mean", "amax", "amin", "prod", "median") and "norm" in norm(y):
+                                        bad_den = (d, f"'{norm(den)}' reduces the norms of all right-hand sides to one number")
+                                    if fn == "norm" and num_axis and not any(k.arg == "axis" for k in y.keywords):
+                                        bad_den = (d, f"'{norm(den)}' is one norm for the whole block of right-hand sides")
+        if bad_den is not None:
+            col.bad(where_of(f), f.rel, line_of(tests[0]), f"{f.short}: residual relative to each right-hand side's own norm",
+                    f"{bad_den[1]}: a column much smaller than the largest one is declared converged while its own relative "
+                    f"residual is still far above the tolerance")
+        elif measures:
+            col.ok(where_of(f), f.rel, line_of(tests[0]), f"{f.short}: residual relative to each right-hand side's own norm", "")
         col.ok(where_of(f), f.rel, line_of(f.node), f"{f.short}: scanned", "")
 
 
